@@ -21,7 +21,7 @@ const (
 	maxNativeFunctionsCount  = 256
 	maxScriggoFunctionsCount = 256
 	maxFieldIndexesCount     = 256
-	maxSelectCasesCount      = 65536
+	maxSelectCasesCount      = 65535 // one less than the maximum of reflect.Select: the virtual machine may add the done case.
 	maxTextsCount            = 65536
 
 	// Types.
